@@ -23,6 +23,10 @@ CHECKS = {
          "1-3 writer threads, 1-3 reader threads and optionally a merging thread (hook) or the store's own timer-driven merges share one store; every lock, atomic, queue operation and every file-system call is a scheduling point decided by the seeded scheduler (random with 2-40% switch probability, PCT depth 1-5). Values straddle the 8 KiB buffer (two-write entries), pool 1-4, cache 0-256, small file limits. Oracles: no operation errs or panics, each key's history with a final quiescent read is linearizable, no deadlock/livelock (facts from the scheduler's wait-for state), the reader pool is back at capacity."),
  "C05": ("exploration", "§6 C05", "deterministic simulation: scan-before == scan-after == scan-after-reopen == model around every merge, thresholds re-tuned from live statistics",
          "Histories with merges at arbitrary positions under all threshold classes, including thresholds re-tuned from the live per-file statistics (Retune) so that strict subsets of files are selected, followed by reopen cycles."),
+ "C10": ("exploration", "§6 C10", "deterministic simulation of the full stack with hostile clients: attack grammar on 1-3 connections concurrently with 1-2 control connections; worker process survival observed by the supervisor",
+         "Hostile connections send a prefix of well-formed commands on their own keys and then one malformed item (random bytes, non-command RESP, unknown command, wrong arity, non-bulk arguments, non-UTF-8 keys, truncated frames, absurd or overflowing lengths, numbers beyond offset 18, arrays nested 2..65536 deep (262144 in the thorough tier)). Handler tasks run on simulated threads with tokio's 2 MiB stacks, so stack exhaustion kills the worker process as in production and is reported with its seed. Oracles: process alive, control replies equal the model, a fresh connection is served at the end, the store holds per hostile connection a prefix of its well-formed commands and no foreign key, no control connection is closed."),
+ "C11": ("exploration", "§6 C11", "deterministic simulation of the full stack: 2-4 scripted clients on separate connections under seeded schedules and network timing; per-key linearizability (Wing-Gong) of request/reply stamps incl. per-connection order",
+         "3-12 single-key SET/GET/DEL per client over 2-3 shared keys, closed loop or pipelined (window <= 3), unique values, W in {1,2,4} runtime workers, every command on its own blocking thread, small file limits, merges by a harness thread or the store's timer, disk latency. invoke = stamp when the last request byte was accepted by the transport, return = stamp when the last reply byte was read; each key's history plus a final read must be linearizable; every request gets exactly one well-formed reply; no connection is closed by the server."),
  "C12": ("exploration", "§6 C12", "deterministic simulation: recovery of the closed directory with and without hint files, differential oracle",
          "The closed directory is materialised twice from the recorded shadow, once with every *.hint removed; both are opened with the real open and every key of the universe and on disk must read identically."),
  "C13": ("exploration", "§6 C13", "deterministic simulation: data-file sizes around every merge vs. independent size formula and ground-truth scan",
@@ -31,10 +35,18 @@ CHECKS = {
          "Every tracked libc call on the store directory is checked: exclusive append-only creation, writes only through the creating descriptor at the end of file, no pwrite/writev/truncate/rename/link, ids strictly above everything the directory ever contained, size bound per file, real bytes == recorded bytes."),
  "C03": ("fault_enumeration", "§6 C03", "deterministic simulation with crash injection: every file-system-call boundary of every sampled workload is a kill point; images built from the recorded shadow and recovered with the real open",
          "For each sampled workload (set/del/merge/reopen, small file limits so rollovers and multi-file merges are common) every state-changing I/O record is a crash point (quick tier: at most 80 per workload, always including first/last record of every operation; thorough: all). The directory image after that prefix of calls is materialised and opened with the real Config::open; every key must read the acknowledged value or the in-flight operation's value, never error/panic/older value; on a share of images the recovered store must accept a set/get/del round and a second open must read the same."),
+ "C06": ("exploration", "§6 C06", "deterministic simulation of the full stack: real Server on the simulated runtime and TCP model, one scripted client with seeded segmentation and pipelining, sequential map model, independent RESP reply decoder",
+         "1-40 well-formed SET/GET/DEL requests (values with CR, LF, NUL, empty, >8 KiB; UTF-8 keys incl. empty and multi-byte; DEL with repeated/absent keys) sent in pieces of 1 byte / random sizes / whole, pipelining windows 1..all, socket capacities 64 B - 64 KiB (partial writes, back-pressure), per-segment delay, read segmentation down to one byte, spurious Pending. Exactly one reply per request, in order, equal to the model; nothing more; final store scan equals the model; the server stops on the shutdown signal."),
+ "C08": ("exploration", "§6 C08", "deterministic simulation: two real Connection ends over one simulated stream (or a raw harness writer that stalls / cuts inside a frame), seeded segmentation; independent encoder as reference",
+         "Sequences of 1-12 frames from the property's domain (simple strings/errors, i64 extremes and 18/19-digit values, bulk strings incl. trailing CR, empty, 8190-70000 bytes, null, arrays, empty array). (a) write_frame into memory equals the independent encoding; (b) real writer -> simulated stream (partial writes, back-pressure, delays) -> real reader yields equal frames then a clean end; (c) raw writer stalls after a generated byte count: read_frame must have produced exactly the complete frames and still be pending; (d) raw writer cuts the stream inside a frame: read_frame must report an error, not a clean end."),
  "C09": ("fault_enumeration", "§6 C09", "deterministic simulation with power-loss injection: per crash point, per file any suffix after the last completed fsync is dropped; recovery with the real open vs. acknowledged-writes model",
          "Workloads under sync=always; every write/create/unlink/fsync record is a power-loss point with two images each: everything unsynced lost, and per-file random surviving lengths between synced and written length (torn tails, hint file ahead of data file). Same recovery oracle as C03."),
  "C20": ("fault_enumeration", "§6 C20", "deterministic simulation with I/O fault injection: one transient errno at each individual write/create/fsync/unlink call (thorough: also read-side calls), one fault per run, every position",
          "A fault-free pass of the workload (plus a final merge and close/reopen) lists its faultable calls; then the workload is re-run once per position with that call failed (ENOSPC/EIO/EDQUOT/EMFILE/EACCES; writes also as short-write-then-error). The failed operation must return Err, every other key must read the model value at once, all later operations must succeed and behave, a later merge must succeed, and after close/reopen every acknowledged key reads its value."),
+ "C15": ("exploration", "§6 C15", "deterministic simulation of the full stack: M in {1,2,3} slots, M+1..M+4 clients ending in every way the property lists (close, half-sent frame, reset, malformed command, handler panic and store error injected through the server's KV type parameter), accept errors with back-off on the simulated clock",
+         "A connection is 'definitely held' from its first reply until its client performs the action that ends it. (i) never more than M definitely held; (ii) at every strongly quiescent point (nothing runnable, no timer pending) no client may still be waiting to be served; (iii) after all clients are gone M fresh clients must all be served at the same time."),
+ "C16": ("exploration", "§6 C16", "deterministic simulation of the full stack: the shutdown future is a simulator one-shot fired at a scripted point of a connection's life (idle, mid-frame, mid-command, reply in flight, pipelined) or at a generated simulated time",
+         "0-4 clients on disjoint keys, all reading until end of stream. Oracles: Server::run returns within 60 simulated seconds (checked in growing steps); each client's byte stream is complete correct replies followed by end of stream (no torn reply); per connection the store holds a prefix of its requests at least as long as the replies it received; afterwards the port is free and no server task is alive."),
  "C17": ("exploration", "§6 C17", "deterministic simulation on the discrete-event clock: the store's background thread (adopted through pthread_create interposition) under seeded schedules, drop at generated instants, stale-handle use, immediate reopen, open/close cycles",
          "Merge policy always / interval sync with check intervals from 10 ms to 1 h, disk latency stretching merges and syncs, 0-2 client threads racing the drop. Oracles: every operation invoked through a handle after the drop returned yields the 'closed' error; operations racing the drop go either way and define the model; the directory opens again at once and holds exactly the acknowledged contents; every background worker exits without the simulated clock having to reach its next timer (slack = injected disk latency only); no store descriptor stays open after the cycles."),
  "C18": ("exploration", "§6 C18", "deterministic simulation on the discrete-event clock: triggers placed just above / exactly at / below the statistics a workload produced; merges and fsyncs observed in the I/O log with simulated timestamps",
